@@ -59,6 +59,13 @@ CHECKS = {
                      'discharged by z3 for every value within the stated numbers of timers/iterations',
                 note='trusted: z3/pathex; the clock/Event doubles and their contracts (non-decreasing clock constant within an iteration, '
                      'wait(t) returns within t); datetime deadlines and Sleep outside'),
+    'C11': dict(engine='pathex', technique=TECH, ref='DESIGN.md 4/C11',
+                text='bounded symbolic execution of the real write/close paths of Server, Client and File with the outcome of every '
+                     'send()/os.write() as a solver variable (accept k of n bytes with k a z3 Int, or raise a transient/fatal errno) '
+                     'over all write/close/writability histories up to the stated length: accepted bytes are always a prefix and finally '
+                     'all of what was written, close after the buffer, nothing sent after close, fatal errors signalled, writer '
+                     'interest dropped',
+                note='trusted: z3/pathex, the scripted socket/fd doubles (BSD send contract; a broken connection stays broken); payloads <= 3 bytes'),
 }
 
 NOT_YET = {
